@@ -17,11 +17,15 @@ from .util import noreturn_functions, is_assert_trap
 class _Top:
     def __repr__(self):
         return 'TOP'
+    def __reduce__(self):
+        return 'TOP'
 TOP = _Top()
 
 class _NonZero:
     """an unknown positive counter value (a loop counter after at least one increment; 32-bit wrap-around is not modelled)"""
     def __repr__(self):
+        return 'NZ'
+    def __reduce__(self):
         return 'NZ'
 NZ = _NonZero()
 
@@ -259,8 +263,10 @@ class WordClass:
     def __init__(self, name, field, universe, lockbits, small_model=False, count_shift=8, count_mask=0xFFFFFF):
         self.name = name
         self.field = field
-        self.universe = universe          # function(hold, spin) -> frozenset of ints
-        self.lockbits = lockbits          # function(value) -> (W, count, SPIN)
+        if universe is not None:
+            self.universe = universe      # function(hold, spin) -> frozenset of ints
+        if lockbits is not None:
+            self.lockbits = lockbits      # function(value) -> (W, count, SPIN)
         self.small_model = small_model
         self.count_shift = count_shift
         self.count_mask = count_mask
